@@ -634,6 +634,51 @@ def _stmt_text(fn, t):
     return norm_stmt(best if best is not None else node)
 
 
+def check_unsqueeze(run, A):
+    """stored weights of the integration models have the tied axes squeezed out (M-step) and re-inserted by
+    pb_bss.utils.unsqueeze at the same positions (E-step)"""
+    import ast
+    q = 'pb_bss.utils::unsqueeze'
+    fn = A.prog.func(q)
+    src = {type(n).__name__: n for n in ast.walk(fn.node)}
+    txt = ' '.join(ast.unparse(fn.node).split())
+    fut = any(isinstance(n, ast.Assign) and ast.unparse(n.targets[0]) == 'future_ndim' and ast.unparse(n.value).replace(' ', '') in ('len(shape)+len(axis)', 'len(axis)+len(shape)')
+              for n in ast.walk(fn.node))
+    mod = any(isinstance(n, ast.ListComp) and isinstance(n.elt, ast.BinOp) and isinstance(n.elt.op, ast.Mod) and ast.unparse(n.elt.right) == 'future_ndim' for n in ast.walk(fn.node))
+    loop = [n for n in ast.walk(fn.node) if isinstance(n, ast.For) and isinstance(n.iter, ast.Call) and ast.unparse(n.iter.func) == 'sorted' and not n.iter.keywords]
+    ins = False
+    for l in loop:
+        for n in ast.walk(l):
+            if isinstance(n, ast.Call) and ast.unparse(n.func).endswith('.insert') and len(n.args) == 2 and ast.unparse(n.args[0]) == ast.unparse(l.target) and ast.unparse(n.args[1]) == '1':
+                ins = True
+    g = A.graphs.get(fn)
+    from ..walk import ret_alts
+    r = [strip_views(x) for x in ret_alts(g)]
+    resh = len(r) == 1 and is_call_to(r[0], 'numpy.reshape')
+    run.check(fut and mod and ins and resh, 'R-AXIS', 'unsqueeze: singleton axes inserted at the tied positions (modulo the final rank, ascending)', fn.loc(), '',
+              f'future rank = len(shape)+len(axis): {fut}; axes normalised modulo it: {mod}; inserted in ascending order: {ins}; reshaped: {resh}', construct=f'R-AXIS::{q}::insertion')
+    for cname, mod_ in (('GCACGMM', 'gcacgmm'), ('VMFCACGMM', 'vmfcacgmm')):
+        fp = A.prog.func(f'{D}{mod_}::{cname}._predict')
+        gp = A.graphs.get(fp)
+        calls = [e.term for e in gp.events if e.kind == 'call' and call_parts(e.term)[0] == q]
+        ok = len(calls) >= 2 and all(strip_views(call_arg(c, 0)).op == 'attr' and strip_views(call_arg(c, 0)).args[1] == 'weight' and
+                                     strip_views(call_arg(c, 1)).op == 'attr' and strip_views(call_arg(c, 1)).args[1] == 'weight_constant_axis' for c in calls)
+        run.check(ok, 'R-AXIS', f'{cname}._predict: unsqueeze(self.weight, self.weight_constant_axis)', fp.loc(), '', 'weights are not re-expanded along the stored tied axes',
+                  construct=f'R-AXIS::{fp.qual}::unsqueeze-args')
+        fm = A.prog.func(f'{D}{mod_}::{cname}Trainer._m_step')
+        gm = A.graphs.get(fm)
+        sq = [e.term for e in gm.events if e.kind == 'call' and is_call_to(e.term, 'numpy.squeeze')]
+        oks = bool(sq) and all(strip_views(call_arg(c, 1, 'axis')).op == 'param' and strip_views(call_arg(c, 1, 'axis')).args[0] == 'weight_constant_axis' for c in sq)
+        ctor = [strip_views(x) for x in unwrap_gamma(gm.ret)]
+        okc = False
+        for c in ctor:
+            n_, pos, kw = call_parts(c)
+            if 'weight_constant_axis' in kw:
+                okc = strip_views(kw['weight_constant_axis']).op == 'param' and strip_views(kw['weight_constant_axis']).args[0] == 'weight_constant_axis'
+        run.check(oks and okc, 'R-AXIS', f'{cname}Trainer._m_step: tied axes squeezed out and recorded in the model', fm.loc(), '',
+                  f'np.squeeze over weight_constant_axis: {oks}; model stores the same weight_constant_axis: {okc}', construct=f'R-AXIS::{fm.qual}::squeeze-record')
+
+
 def check(run):
     A = run.A
     run.explanation = (
@@ -649,4 +694,5 @@ def check(run):
     check_models(run, A)
     check_fit_predict(run, A)
     check_weights_and_initialisers(run, A)
+    check_unsqueeze(run, A)
     check_guards(run, A)
